@@ -260,3 +260,13 @@ def ob_g(ob):
             raise HarnessError("packd counterexample did not reproduce (%s, %s)" % (lab, bad))
     x, y = z3.Reals("x y")
     expect_refuted(ob, x == y, [], "twin: two different matrix entries are distinguishable", "lra")
+
+
+# ---- shared obligation: a padded molecule's centre-of-mass removal must use its own real atoms only (zero-mass padding rows must not enter the total mass) ----
+@obligation(PID, "h", title="[shared with C13.a] _zero_com: afterwards sum m v = 0, angular momentum about the COM = 0 (where requested), kinetic energy preserved, padding atoms at rest — for all velocity fields, COM off the origin, padded batch incl. a linear molecule")
+def ob_h_shared(ob):
+    """a padded molecule's centre-of-mass removal must use its own real atoms only"""
+    from . import C13 as _m  # imported lazily: the harness modules share obligations in both directions
+
+    ob.note("this obligation is the one registered as C13.a; it is also decided here because the amount of zero padding must not change a molecule's centre-of-mass velocity removal")
+    _m.ob_a(ob)
